@@ -48,17 +48,19 @@ type dfact struct { // x - y <= c
 }
 
 type prover struct {
-	byKey    map[string]atom
-	stored   map[string]bool
-	keyDepth int
-	inWrap   map[*ssa.BinOp]bool
-	c        *Ctx
-	phis     map[atom]*ssa.Phi
-	fn       *ssa.Function
-	names    map[ssa.Value]atom
-	global   []dfact // facts that hold wherever the atoms are defined
-	memo     map[ssa.Value]lin
-	depth    int
+	byKey     map[string]atom
+	stored    map[string]bool
+	keyDepth  int
+	inWrap    map[*ssa.BinOp]bool
+	c         *Ctx
+	phis      map[atom]*ssa.Phi
+	fn        *ssa.Function
+	names     map[ssa.Value]atom
+	global    []dfact // facts that hold wherever the atoms are defined
+	memo      map[ssa.Value]lin
+	depth     int
+	ipDone    bool
+	splitDone map[*ssa.Call]bool
 }
 
 func newProver(c *Ctx, fn *ssa.Function) *prover {
@@ -781,9 +783,18 @@ func (p *prover) lin0(v ssa.Value) lin {
 		step := int64(0)
 		simple := true
 		var initLin *lin
+		// selfStep: the edge value is the phi itself plus a constant (x+k, x-k, (x+a)+b, ...)
+		selfStep := func(e ssa.Value) (int64, bool) {
+			if bo, ok := e.(*ssa.BinOp); ok && (bo.Op == token.ADD || bo.Op == token.SUB) {
+				if l := p.lin(e); l.ok && l.pos == a && l.neg == "" && l.c != 0 {
+					return l.c, true
+				}
+			}
+			return 0, false
+		}
 		nonSelf := 0
 		for _, e := range x.Edges {
-			if bo, ok := e.(*ssa.BinOp); !(ok && bo.X == ssa.Value(x)) && e != ssa.Value(x) {
+			if _, isStep := selfStep(e); !isStep && e != ssa.Value(x) {
 				nonSelf++
 			}
 		}
@@ -795,7 +806,7 @@ func (p *prover) lin0(v ssa.Value) lin {
 				}
 				continue
 			}
-			if bo, ok := e.(*ssa.BinOp); !(ok && bo.X == ssa.Value(x)) && e != ssa.Value(x) && nonSelf == 1 {
+			if _, isStep := selfStep(e); !isStep && e != ssa.Value(x) && nonSelf == 1 {
 				// a single non-constant initial value
 				il := p.lin(e)
 				if il.ok && il.neg == "" {
@@ -803,15 +814,10 @@ func (p *prover) lin0(v ssa.Value) lin {
 					continue
 				}
 			}
-			if bo, ok := e.(*ssa.BinOp); ok && (bo.Op == token.ADD || bo.Op == token.SUB) && bo.X == ssa.Value(x) {
-				if k, ok := constInt(bo.Y); ok {
-					if bo.Op == token.SUB {
-						k = -k
-					}
-					if step == 0 || (step > 0) == (k > 0) {
-						step = k
-						continue
-					}
+			if k, isStep := selfStep(e); isStep {
+				if step == 0 || (step > 0) == (k > 0) {
+					step = k
+					continue
 				}
 			}
 			if e == ssa.Value(x) {
@@ -849,6 +855,44 @@ func (p *prover) lin0(v ssa.Value) lin {
 					}
 				} else {
 					allLo, allHi = false, false
+				}
+			}
+			if !allHi || !allLo {
+				// bounds that every incoming edge establishes in its own predecessor (constants, guarded values)
+				hiAll, loAll := true, true
+				var hiMax, loMin int64 = math.MinInt64, math.MaxInt64
+				for i, e := range x.Edges {
+					if e == ssa.Value(x) || i >= len(x.Block().Preds) {
+						hiAll, loAll = false, false
+						break
+					}
+					pr := x.Block().Preds[i]
+					le := p.lin(e)
+					if !le.ok || le.pos == a || le.neg == a {
+						hiAll, loAll = false, false
+						break
+					}
+					facts := append(append(append([]dfact(nil), p.global...), p.edgeFacts(pr)...), p.branchInto(pr, x.Block())...)
+					if d, ok := p.shortest(facts, le.pos, le.neg); ok && d > -(1<<50) {
+						if d+le.c > hiMax {
+							hiMax = d + le.c
+						}
+					} else {
+						hiAll = false
+					}
+					if d, ok := p.shortest(facts, le.neg, le.pos); ok && d > -(1<<50) {
+						if le.c-d < loMin {
+							loMin = le.c - d
+						}
+					} else {
+						loAll = false
+					}
+				}
+				if hiAll && hiMax != math.MinInt64 {
+					p.add(dfact{a, "", hiMax, "phi: every incoming edge is bounded above"})
+				}
+				if loAll && loMin != math.MaxInt64 {
+					p.add(dfact{"", a, -loMin, "phi: every incoming edge is bounded below"})
 				}
 			}
 			if allLo && lo != math.MaxInt64 {
@@ -1019,11 +1063,45 @@ func (p *prover) entails(b *ssa.BasicBlock, l lin, c int64) bool {
 }
 
 func (p *prover) entailsSplit(b *ssa.BasicBlock, l lin, c int64, given []dfact, done map[*ssa.BasicBlock]bool, depth int) bool {
+	p.paramFacts()
 	if p.entails0(b, l, c, given) {
 		return true
 	}
 	if !l.ok || depth > 2 {
 		return false
+	}
+	// results of module calls that dominate b: split over the callee's return statements
+	if depth == 0 {
+		for _, blk := range p.fn.Blocks {
+			if !(blk == b || blk.Dominates(b)) {
+				continue
+			}
+			for _, in := range blk.Instrs {
+				call, ok := in.(*ssa.Call)
+				if !ok || p.splitDone[call] {
+					continue
+				}
+				cases := p.callCases(call)
+				if len(cases) == 0 {
+					continue
+				}
+				if p.splitDone == nil {
+					p.splitDone = map[*ssa.Call]bool{}
+				}
+				p.splitDone[call] = true
+				all := true
+				for _, fs := range cases {
+					if !p.entailsSplit(b, l, c, append(append([]dfact(nil), given...), fs...), done, depth+1) {
+						all = false
+						break
+					}
+				}
+				delete(p.splitDone, call)
+				if all {
+					return true
+				}
+			}
+		}
 	}
 	// candidate phi blocks: every block with integer/slice phis that dominates b
 	seen := map[*ssa.BasicBlock]bool{}
@@ -1148,8 +1226,13 @@ func (p *prover) shortest(facts []dfact, x, y atom) (int64, bool) {
 		return 0, true
 	}
 	dist := map[atom]int64{y: 0}
-	for i := 0; i < 12; i++ {
+	for i := 0; i < 40; i++ {
 		changed := false
+		if i == 39 {
+			// still improving after this many rounds: a negative cycle - the facts contradict each other, the
+			// program point is unreachable under them and every bound holds vacuously
+			return -(1 << 60), true
+		}
 		for _, f := range facts {
 			if f.c == math.MinInt64 {
 				continue
